@@ -7,6 +7,7 @@ toolchain go1.23.5
 require (
 	github.com/containernetworking/cni v0.8.0
 	github.com/emicklei/go-restful v2.10.0+incompatible
+	github.com/prometheus/client_golang v1.14.0
 	google.golang.org/grpc v1.51.0
 	k8s.io/api v0.24.3
 	k8s.io/apiextensions-apiserver v0.24.3
@@ -50,7 +51,6 @@ require (
 	github.com/munnerz/goautoneg v0.0.0-20191010083416-a7dc8b61c822 // indirect
 	github.com/opencontainers/go-digest v1.0.0 // indirect
 	github.com/pkg/errors v0.9.1 // indirect
-	github.com/prometheus/client_golang v1.14.0 // indirect
 	github.com/prometheus/client_model v0.3.0 // indirect
 	github.com/prometheus/common v0.37.0 // indirect
 	github.com/prometheus/procfs v0.8.0 // indirect
